@@ -255,6 +255,13 @@ class Codec:
         return {'cmsg': ['client'], 'smsg': ['server'], 'msg': ['client', 'server'],
                 'clogin': ['client'], 'slogin': ['server']}[c.kind]
 
+    CLIENT_LIMIT = 10240   # canonical client messages stay within the client buffer limit (assumption, DESIGN.md 2.1)
+
+    def canonical_frame(s, c, body, direction):
+        if s.env.family == 'world' and direction == 'client' and len(body) > s.CLIENT_LIMIT:
+            raise RefError('client message above the client buffer limit')
+        return s.frame(c, body, direction)
+
     def frame(s, c, body, direction):
         """Full message bytes: header + body, per ir/implementing_world.md / implementing_login.md."""
         op = c.raw['opcode']
